@@ -21,6 +21,7 @@ use std::hash::Hasher;
 use crate::codec::SketchBytes;
 use crate::codec::SketchSlice;
 use crate::codec::assert::ensure_preamble_longs_in;
+use crate::codec::assert::ensure_remaining;
 use crate::codec::assert::ensure_serial_version_is;
 use crate::codec::assert::insufficient_data;
 use crate::codec::family::Family;
@@ -376,6 +377,10 @@ impl<T: CountMinValue> CountMinSketch<T> {
         }
 
         let entries = entries_for_config_checked(num_hashes, num_buckets)?;
+        if (flags & FLAGS_IS_EMPTY) == 0 {
+            // total weight and the counters must be present before the table is allocated
+            ensure_remaining(&cursor, entries + 1, LONG_SIZE_BYTES, "counts")?;
+        }
         let mut sketch = Self::make(num_hashes, num_buckets, seed, entries);
         if (flags & FLAGS_IS_EMPTY) != 0 {
             return Ok(sketch);
